@@ -71,6 +71,12 @@ CHECKS = {
     text='Totality and validity search: every input must end in accept or a line-numbered rejection within a token-step bound; rejected texts yield no program; accepted texts are executed under an instruction budget and must not hit an internal VM fault; texts built to break one documented rule must be rejected.',
     design='DESIGN.md section 3, C06',
     note='Internal VM faults are recognised from the exception raised inside the dispatch (op-code table, missing routine, eval/call-stack underflow, pc outside image); ordinary run-time errors of a script are not counted. atheris campaigns are only approximately reproducible: the saved input is the reproducible unit.'),
+ 'C16': dict(
+    technique='metamorphic re-layout of generated programs (listing equality), exhaustive enumeration of all identifiers up to length 2 and all case variants of every keyword / internal name in five usage templates, Hypothesis-generated identifiers and Unicode strings',
+    category='exploration',
+    text='Re-layouts (white space, no space next to marks, comments, abbreviations, bracketed calls) must compile to the identical listing; braces round single values to identical behaviour. Identifiers: the full set of names of length <= 2 plus every case variant of every reserved-looking word is enumerated in variable / macro / parameter / routine / loop-variable roles; longer names and strings are sampled.',
+    design='DESIGN.md section 3, C16',
+    note='Strings ending in a backslash are a recorded open finding (undocumented escape) and excluded from generation while it is open; CR/VT/FF/NEL/LS/PS are treated as line breaks and not generated inside strings.'),
 }
 PENDING_REASON = 'check not built yet in this session; planned as described in DESIGN.md (property-based / fuzzing check, same runner)'
 
